@@ -401,16 +401,11 @@ func newSystem(c config) (*system, error) {
 	s.t0 = vsched.NowNanos()
 	i.BindRTCPWriter(s.sink)
 	s.rtcpRd = i.BindRTCPReader(interceptor.RTCPReaderFunc(s.rtcpFeed.Read))
-	shared := &interceptor.StreamInfo{}
 	for _, sc := range c.Streams {
 		st := &stream{cfg: sc, feed: &hk.FeedReader{}, m: newModel(sc.Rate), u0: int64(sc.StartSeq), ts0: int64(sc.StartTS)}
-		// one StreamInfo object is reused for every stream and overwritten after the last Bind: what a stream was
-		// bound with is what was in the object when BindRemoteStream was called
-		shared.SSRC, shared.ClockRate = sc.SSRC, sc.Rate
-		st.rd = i.BindRemoteStream(shared, st.feed)
+		st.rd = i.BindRemoteStream(&interceptor.StreamInfo{SSRC: sc.SSRC, ClockRate: sc.Rate}, st.feed)
 		s.st = append(s.st, st)
 	}
-	shared.SSRC, shared.ClockRate = 0xDEAD0000, 1
 	vsched.Quiesce()
 	return s, nil
 }
